@@ -11,7 +11,7 @@ package main
 //   Lexer.unquoteBytes     ~  syntax.unquoteBytes (hook of C08)
 //   Format.quoteString     ~  syntax.quoteString  (hook of C09)
 // and monitors the theorems of Props/C16 on the real code alone:
-//   unquote_jsonEncode / string_leaf_json_to_mro: ParseValExp of the token any
+//   unquote_jsonEncode / string_leaf_json_to_mro_partial: ParseValExp of the token any
 //     of the writers produced is a StringExp holding exactly the string;
 //   jsonDecode_quoteString / string_leaf_mro_to_json: StringExp.MarshalJSON is
 //     decoded by encoding/json to exactly the string;
@@ -289,7 +289,7 @@ func (x *c16Runner) strs(n int) {
 			}
 			// json.Marshal of invocation data re-compacts the RawMessage arguments with HTML
 			// escaping: the text quoteString wrote becomes exactly what the HTML-mode
-			// encoder writes for the string (so string_leaf_json_to_mro with html = true
+			// encoder writes for the string (so string_leaf_json_to_mro_partial with html = true
 			// is about that path)
 			if rm, err := json.Marshal(json.RawMessage(mq)); err != nil || string(rm) != goTok[1] {
 				x.strViolate("property", "C16:str:rawmessage-compaction",
